@@ -269,6 +269,11 @@ def run(ctx):
     ctx.check(v is not None and re.match(r"^\(maybeNrKilled(\.operator bool\(\)|\.has_value\(\))? \? (\*maybeNrKilled|maybeNrKilled\.value\(\)) : 0\)$", tlk.text(init)) is not None,
               "nrKilled-from-result",
               "value-shape", tlk.loc(), "nrKilled is the kill result (0 on error)", "nrKilled is " + (tlk.text(init) if v else "?"))
+    for w in local_writes(tlk, "nrKilled"):
+        ctx.violation("nrKilled-from-result:rewritten@%d" % tlk.nodes[w].get("line", 0), "value-shape", tlk.loc(w),
+                      "tryToLogAndKillCgroup re-assigns nrKilled (%s) after taking it from the kill result: the count that is logged, written to the kill info "
+                      "and turned into the return value is no longer the number of processes signalled by this attempt (a dry run reports a count, a failed "
+                      "probe reports none)" % tlk.text(w)[:80])
     stats = [i for i in tlk.calls("Oomd::incrementStat") if "kKillsKey" in tlk.text(tlk.nodes[i]["args"][0])]
     ctx.counters["kills_stat_sites"] = len(stats)
     ctx.floor("kills_stat_sites", 1, "oomd.kills increments")
